@@ -159,6 +159,56 @@ def run(chk):
         a0 = dag.substitute(dag.tonode(a), {"lmu": 0})
         ok0, _ = dag.is_zero_fp([dag.sub(a0, ref)], chk.seed, 2)
         chk.decide(ok0, "expanded-reference-value", fe.qname, f"order {n}: expanded_qcd(ref, L=0) != ref", where=fe.where, instance=f"qcd,{n}")
+    # ---- lepton threshold: with QED switched on, a segment whose ends see different numbers of leptons is solved in two pieces
+    # split at m_tau^2, each with its own lepton number; without QED it is solved in one piece
+    fa = src.func(f"{CP}.Couplings.a")
+    seg_cls = src.cls("eko.matchings.Segment")
+    mtau2 = dag.power(dag.tonode(pe.get_global("eko.constants", "MTAU")), 2)
+    n_lep = 0
+    for qcd in (1, 3):
+        for qed in (0, 1, 2):
+            for nli, nlf in ((2, 3), (3, 2), (3, 3)):
+                self_ = Obj(src.cls(f"{CP}.Couplings"))
+                self_.attrs.update(a_ref=Arr.from_nested([dag.sym("a_ref"), dag.sym("aem_ref")]), order=(qcd, qed), hqm_scheme="POLE",
+                                   thresholds_ratios=[1, 1, 1], atlas=Obj(src.cls("eko.matchings.Atlas")), cache={}, method="exact",
+                                   alphaem_running=True, decoupled_running=False)
+                seg = pe.instantiate(seg_cls.qname, [dag.sym("mu_from"), dag.sym("mu_to"), 4])
+                calls = []
+
+                def compute_model(pe_, args, kwargs, calls=calls):
+                    calls.append(list(args[1:]))
+                    return Arr.from_nested([dag.sym(f"A{len(calls)}"), dag.sym(f"AEM{len(calls)}")])
+
+                pe.overrides[f"{CP}.Couplings.compute"] = compute_model
+                pe.overrides["eko.matchings.Atlas.path"] = lambda pe_, args, kwargs: [seg]
+                pe.overrides["eko.matchings.is_downward_path"] = lambda pe_, args, kwargs: False
+                pe.overrides["eko.matchings.lepton_number"] = lambda pe_, args, kwargs, nli=nli, nlf=nlf: nli if dag.tonode(args[0]) is dag.sym("mu_from") else nlf
+                pe.assume = lambda text, env: True if text == "not np.isclose(seg.origin, seg.target)" else None
+                inst = f"order=({qcd},{qed}),leptons {nli}->{nlf}"
+                try:
+                    pe.apply(pe.getattr(self_, "a"), [dag.sym("mu_to"), 4], {})
+                except PERaise as e:
+                    chk.fail("lepton-threshold-splits-the-segment", fa.qname, f"{inst}: raises {e}", where=fa.where, instance=inst)
+                    continue
+                finally:
+                    pe.assume = None
+                    for q in (f"{CP}.Couplings.compute", "eko.matchings.Atlas.path", "eko.matchings.lepton_number", "eko.matchings.is_downward_path"):
+                        pe.overrides.pop(q, None)
+                n_lep += 1
+                shape = [(c[1], c[2], dag.short(dag.tonode(c[3])), dag.short(dag.tonode(c[4]))) for c in calls]
+                if qed != 0 and nli != nlf:
+                    ok = len(calls) == 2 and calls[0][1:3] == [4, nli] and dag.tonode(calls[0][3]) is dag.sym("mu_from") \
+                        and dag.is_zero_fp([dag.sub(dag.tonode(calls[0][4]), mtau2), dag.sub(dag.tonode(calls[1][3]), mtau2)], chk.seed, 1)[0] \
+                        and calls[1][1:3] == [4, nlf] and dag.tonode(calls[1][4]) is dag.sym("mu_to") \
+                        and isinstance(calls[1][0], Arr) and dag.tonode(calls[1][0][0]) is dag.sym("A1")
+                    want = f"two solves: (nf=4, nl={nli}, mu_from -> m_tau^2) then, from its result, (nf=4, nl={nlf}, m_tau^2 -> mu_to)"
+                else:
+                    ok = len(calls) == 1 and calls[0][1:3] == [4, nli] and dag.tonode(calls[0][3]) is dag.sym("mu_from") and dag.tonode(calls[0][4]) is dag.sym("mu_to")
+                    want = "one solve over the whole segment"
+                chk.decide(ok, "lepton-threshold-splits-the-segment", fa.qname, f"{inst}: the couplings are solved as {shape}; required {want}: the QED "
+                           f"beta function changes its lepton number at m_tau, so a_em does not solve its RGE across it otherwise", where=fa.where,
+                           instance=inst, how="PE with recording solver")
+    chk.floor("lepton-threshold cases", n_lep, 18)
     chk.note(instances=n_inst, files=["src/eko/couplings.py", "src/eko/beta.py"])
     chk.explanation = ("Right-hand sides of the integrated ODEs extracted and compared with the literature RGEs; expanded solutions "
                        "checked at the reference point and against the RGE to working order.")
